@@ -287,10 +287,25 @@ func vhC19(a []int, twin bool) {
 	if a[0] == vkNoPEM {
 		vAssert("C19.no-pem-block-error", err == ErrNoPEMBlock && len(vhParserCalls) == 0)
 	}
+	// history independence: loading other material into the same Key object
+	// gives what loading it into a fresh Key gives
+	if err == nil {
+		second := vChoice("second-kind", vkCount)
+		vhPemKind, vhPair = second, vChoice("second-pair", 2)
+		var fresh Key
+		ferr := fresh.LoadKeyReaderDefaults(strings.NewReader("OTHER PEM"))
+		rerr := k.LoadKeyReaderDefaults(strings.NewReader("OTHER PEM"))
+		vAssert("C19.reload-verdict-like-fresh-load", (ferr == nil) == (rerr == nil))
+		if ferr == nil && rerr == nil {
+			vAssert("C19.reloaded-key-equals-fresh-load", k.KeyID == fresh.KeyID && k.KeyType == fresh.KeyType && k.Scheme == fresh.Scheme &&
+				k.KeyVal.Public == fresh.KeyVal.Public && k.KeyVal.Private == fresh.KeyVal.Private && k.KeyVal.Certificate == fresh.KeyVal.Certificate)
+		}
+		vhPemKind, vhPair = a[0], 0
+	}
 	// explicit scheme and hash algorithm list are taken over
 	var k2 Key
 	err2 := k2.LoadKeyReader(strings.NewReader("THE PEM TEXT"), "rsassa-pss-sha256", []string{"sha512"})
-	w := vspecLoad(a[0], vhPair)
+	w := vspecLoad(a[0], 0)
 	if w.ok && w.keytype == "rsa" {
 		vAssert("C19.explicit-scheme-and-algorithms", err2 == nil && k2.Scheme == "rsassa-pss-sha256" && len(k2.KeyIDHashAlgorithms) == 1 &&
 			k2.KeyID == vspecKeyID("rsa", "rsassa-pss-sha256", []string{"sha512"}, w.public))
